@@ -40,43 +40,50 @@ func c12Oracle(w *nWorld, pi int, offer *sdp.SessionDescription) (fail *Verdict,
 		}
 	}
 	hasApp = apps > 0
-	// cause first: CreateOffer itself left two transceivers with the same mid (its
-	// numbering ignores later transceivers and a pending remote description)
-	seenMid := map[string]int{}
-	for ti, t := range tcvs {
-		if prev, ok := seenMid[t.Mid()]; ok && t.Mid() != "" {
-			return bad("createoffer-duplicate-transceiver-mid",
-				fmt.Sprintf("transceivers %d and %d both have mid %q after a successful CreateOffer", prev, ti, t.Mid())), 0, hasApp
-		}
-		seenMid[t.Mid()] = ti
-	}
-	// sentence 1: each transceiver has exactly one m-section, carrying its mid, kind, direction
+	// sentence 1: each transceiver has exactly one m-section, carrying its mid, kind,
+	// direction. Sections are assigned to transceivers one-to-one (C12 does not
+	// ask for distinct mids -- that is C06 -- so a mid may occur twice): a
+	// transceiver takes an unused section that carries its mid, kind and
+	// direction, preferring one whose msid names its track.
 	if len(media) != len(tcvs) {
 		return bad("section-count-differs-from-transceivers",
 			fmt.Sprintf("%d media sections for %d transceivers", len(media), len(tcvs))), 0, hasApp
 	}
 	used := map[int]bool{}
 	for ti, t := range tcvs {
-		found := -1
+		found, sameMid, foundExact := -1, -1, false
+		wantMsid := ""
+		if sn := t.Sender(); sn != nil && sn.Track() != nil {
+			wantMsid = sn.Track().StreamID() + " " + sn.Track().ID()
+		}
 		for i, m := range media {
-			if mid, ok := nMid(m); ok && mid == t.Mid() && t.Mid() != "" {
-				if found >= 0 {
-					return bad("transceiver-has-two-sections", fmt.Sprintf("transceiver %d mid %q", ti, t.Mid())), 0, hasApp
-				}
-				found = i
+			mid, ok := nMid(m)
+			if used[i] || !ok || mid != t.Mid() || t.Mid() == "" {
+				continue
 			}
+			if sameMid < 0 {
+				sameMid = i
+			}
+			if strings.EqualFold(m.MediaName.Media, t.Kind().String()) && nDirOf(m) == int(t.Direction()) {
+				msid, has := m.Attribute("msid")
+				exact := (has && msid == wantMsid) || (!has && wantMsid == "")
+				if found < 0 || (exact && !foundExact) {
+					found, foundExact = i, exact
+				}
+			}
+		}
+		if found < 0 && sameMid >= 0 {
+			m := media[sameMid]
+			if !strings.EqualFold(m.MediaName.Media, t.Kind().String()) {
+				return bad("section-kind-differs", fmt.Sprintf("transceiver %d is %s, section says %s", ti, t.Kind(), m.MediaName.Media)), 0, hasApp
+			}
+			return bad("section-direction-differs", fmt.Sprintf("transceiver %d is %s, section %d", ti, t.Direction(), nDirOf(m))), 0, hasApp
 		}
 		if found < 0 {
 			return bad("transceiver-without-section", fmt.Sprintf("transceiver %d mid %q", ti, t.Mid())), 0, hasApp
 		}
 		used[found] = true
 		m := media[found]
-		if !strings.EqualFold(m.MediaName.Media, t.Kind().String()) {
-			return bad("section-kind-differs", fmt.Sprintf("transceiver %d is %s, section says %s", ti, t.Kind(), m.MediaName.Media)), 0, hasApp
-		}
-		if nDirOf(m) != int(t.Direction()) {
-			return bad("section-direction-differs", fmt.Sprintf("transceiver %d is %s, section %d", ti, t.Direction(), nDirOf(m))), 0, hasApp
-		}
 		// sentence 2: the sending track's msid and SSRCs
 		var msids, rids []string
 		ssrcSeen := map[uint64]bool{}
@@ -308,16 +315,16 @@ func init() {
 				nOp{P: 0, K: nAddTcvTrack, Kind: 2, Dir: 2, ID: "tc", Stream: "s1", RID: "q"},
 				nOp{P: 0, K: nAddEncoding, TI: 2, Kind: 2, ID: "tc", Stream: "s1", RID: "h"},
 				nOp{P: 0, K: nOffer})},
-			// witness of c12_one_section_per_mid_refuted (known finding
-			// createoffer-duplicate-transceiver-mid)
+			// c12_remark_mids_may_collide_witness: two transceivers with mid "0" (a C06
+			// matter); each still has its own section, so C12 holds
 			{Ops: []nOp{
 				{P: 0, K: nAddTrack, Kind: 2, ID: "ta", Stream: "s2"},
 				{P: 0, K: nOffer},
 				{P: 1, K: nAddTcvKind, Kind: 1, Dir: 3},
 				{P: 1, K: nDeliverO},
 				{P: 1, K: nOffer}}},
-			// witness of c12_app_iff_local_only_refuted: the remote offer's
-			// application section is mirrored in this side's next offer
+			// c12_remark_app_section_mirrors_remote_witness: the remote created the data
+			// channel; its application section is kept in this side's next offer
 			{Ops: append(append([]nOp{{P: 1, K: nDataChannel}}, nExchange(1)...), nOp{P: 0, K: nOffer})},
 			// RemoveTrack / ReplaceTrack(nil) / ReplaceTrack then offer
 			{Engine: [2]int{3, 1}, Ops: []nOp{
